@@ -1,4 +1,4 @@
-import Heph.Proofs.OracleHistory
+import Heph.Proofs.OracleSession
 /-!
 # C15 — the driver reports a fault exactly on an oracle mismatch and counts correctly
 
@@ -159,12 +159,27 @@ theorem no_leftovers (v : Variant) (b : Batch) (o : Outcome) (fs fs' : FS) (out 
     | true => simp [faulty, htf] at hf
   exact ((h4 _).1 hm).2 hc p hp ht rfl
 
+/-- on the example batch: the three compiler faults are saved, everything else is gone
+(the tool-failed program 5 had no staging copy) -/
+example : (checkOracle exBatch exOutcome exFS).toOption.map (·.2) = some [.saved 2, .saved 3, .saved 4] := by
+  decide
+
 /-- **no_leftovers** (end of the session). When `run` / `run_parallel` ends normally every
 program has been counted and nothing is left under `tmp/` (sequential or pool mode, any
 batch size, any scripted generator and compiler, any variant). -/
 theorem session_no_leftovers (v : Variant) (m : Mode) (batch : Nat) (sps : List SProg) (s : Stats) (fs : FS)
     (h : runSession v m batch sps = .done s fs) :
     s.passed + s.failed = sps.length ∧ ∀ q ∈ fs, isTmp q = false := runSession_done h
+
+/-- **no_leftovers** (end of a sequential session, any variant): every directory that is left
+is the saved test case `<pid>` of a program listed in the faults; no batch directory, no
+staging copy, nothing of a program that was not reported. -/
+theorem session_only_reported_leave_files (v : Variant) (batch : Nat) (sps : List SProg) (s : Stats) (fs : FS)
+    (h : runSession v .sequential batch sps = .done s fs) :
+    ∀ q ∈ fs, ∃ k, q = Path.saved k ∧ k ∈ keys s.faults := by
+  intro q hq
+  obtain ⟨k, rfl⟩ := runSession_seq_onlySaved h q hq
+  exact ⟨k, rfl, runSession_seq_savedListed h k hq⟩
 
 def exSession : List SProg :=
   [ ⟨⟨0, false, [(1, true), (2, false)], some "inj", 1⟩, true, [(2, ["1: error: e"])], false⟩,
